@@ -219,26 +219,26 @@ theorem WF_enableLRTail {cfg s} (cap : Option Int) (h : WF cfg s) : WF cfg (enab
 
 theorem WF_stepOp {cfg s} (o : Op) (h : WF cfg s) : WF cfg (stepOp cfg o s).1 := by
   cases o with
-  | setDefaultWs c => exact ⟨h.cache, h.sel, h.diagKeys, h.compatKeys⟩
-  | setKwChars c => exact ⟨h.cache, h.sel, h.diagKeys, h.compatKeys⟩
-  | inlineLiterals c => exact ⟨h.cache, h.sel, h.diagKeys, h.compatKeys⟩
+  | setDefaultWs c r => exact ⟨h.cache, h.sel, h.diagKeys, h.compatKeys⟩
+  | setKwChars c r => exact ⟨h.cache, h.sel, h.diagKeys, h.compatKeys⟩
+  | inlineLiterals c r => exact ⟨h.cache, h.sel, h.diagKeys, h.compatKeys⟩
   | setVerbose b => exact ⟨h.cache, h.sel, h.diagKeys, h.compatKeys⟩
-  | enablePackrat sz f =>
+  | enablePackrat sz f r =>
     simp only [stepOp, enablePackrat]
     split
     · exact WF_enablePackratTail sz (WF_disableMemo h)
     · split
       · exact h
       · exact WF_enablePackratTail sz h
-  | enableLR cap f =>
+  | enableLR cap f r =>
     simp only [stepOp, enableLR]
     split
     · exact WF_enableLRTail cap (WF_disableMemo h)
     · split
       · exact h
       · exact WF_enableLRTail cap h
-  | disableMemo => exact WF_disableMemo h
-  | resetCache => exact h
+  | disableMemo r => exact WF_disableMemo h
+  | resetCache r => exact h
   | diagSet n v =>
     exact ⟨h.cache, h.sel, by simp only [stepOp]; rw [cfgSet_keys]; exact h.diagKeys, h.compatKeys⟩
   | enableAllWarnings =>
@@ -284,13 +284,15 @@ def restoredBuiltins (s t : State) : List Expr :=
 /-- what `restore (save s) t` produces: `s`, except that an enabled packrat cache is a *fresh* table of
     the same kind and size (a disabled one is whatever table was left behind), the built-ins are
     `restoredBuiltins` (equal to `s.builtins` whenever `t`'s built-ins are the same objects, see
-    `restoredBuiltins_eq`), user expressions are not touched, and the allocation counter moves on -/
+    `restoredBuiltins_eq`), user expressions are not touched (nor is any class-local attribute, `shadows`),
+    and the allocation counter moves on -/
 def restoredState (s t : State) : State :=
   { s with
     cache := if s.packratEnabled then ⟨t.gen, s.cache.kind⟩ else t.cache
     gen := if s.packratEnabled then t.gen + 1 else t.gen
     builtins := restoredBuiltins s t
-    users := t.users }
+    users := t.users
+    shadows := t.shadows }
 
 theorem restoreWs_eq (sv : Saved) (t : State) :
     restoreWs sv t = { t with
@@ -531,8 +533,8 @@ theorem stepOp_builtins (cfg : Cfg) (o : Op) (s : State) :
     ((stepOp cfg o s).1.builtins = s.builtins ∧ (stepOp cfg o s).1.defaultWs = s.defaultWs) ∨
     ∃ c, (stepOp cfg o s).1.builtins = (setDefaultWs c s).builtins ∧ (stepOp cfg o s).1.defaultWs = c := by
   cases o with
-  | setDefaultWs c => exact Or.inr ⟨c, rfl, rfl⟩
-  | enablePackrat sz f =>
+  | setDefaultWs c r => exact Or.inr ⟨c, rfl, rfl⟩
+  | enablePackrat sz f r =>
     left
     simp only [stepOp, enablePackrat]
     split
@@ -540,7 +542,7 @@ theorem stepOp_builtins (cfg : Cfg) (o : Op) (s : State) :
     · split
       · exact ⟨rfl, rfl⟩
       · exact enablePackratTail_builtins sz s
-  | enableLR cap f =>
+  | enableLR cap f r =>
     left
     simp only [stepOp, enableLR]
     split
@@ -654,7 +656,7 @@ theorem stepOp_users (cfg : Cfg) (o : Op) (s : State) (ho : ∀ i c cd, o ≠ .e
     split
     · exact ⟨[_], rfl⟩
     · exact ⟨[], by simp⟩
-  | enablePackrat sz f =>
+  | enablePackrat sz f r =>
     refine ⟨[], ?_⟩
     simp only [stepOp, enablePackrat, List.append_nil]
     split
@@ -662,7 +664,7 @@ theorem stepOp_users (cfg : Cfg) (o : Op) (s : State) (ho : ∀ i c cd, o ≠ .e
     · split
       · rfl
       · exact enablePackratTail_users sz s
-  | enableLR cap f =>
+  | enableLR cap f r =>
     refine ⟨[], ?_⟩
     simp only [stepOp, enableLR, List.append_nil]
     split
